@@ -158,4 +158,26 @@ func c06Years(c *ctx) {
 	}
 }
 
-func init() { cmds["c06years"] = c06Years }
+// c06 pairs: the structural clauses for EVERY lunar year (cheap): a year's table and its successor's
+func c06Pairs(c *ctx) {
+	for y := 1; y <= 9997; y++ {
+		if !c.mine(y) {
+			continue
+		}
+		f := obj{"ev": "C06Pair", "y": y}
+		p, _ := try(func() {
+			ly := calendar.NewLunarYear(y)
+			f["t"] = moList(ly.GetMonths())
+			f["leap"] = ly.GetLeapMonth()
+			f["days"] = ly.GetDayCount()
+			f["tn"] = yearTable(y + 1)
+		})
+		f["p"] = b2i(p)
+		c.emit(f)
+	}
+}
+
+func init() {
+	cmds["c06years"] = c06Years
+	cmds["c06pairs"] = c06Pairs
+}
